@@ -162,6 +162,15 @@ class FieldData:
       The deleted value or None, if the field was not defined.
     """
     if tagname in self.tagnames:
+      if self._gfa and self.__class__.STORAGE_KEY == "name" and \
+          tagname == self.__class__.NAME_FIELD:
+        # (the ID tag of a link or containment) the line is not identified
+        # any more: it is registered again, without its identifier
+        self._gfa._unregister_line(self)
+        value = self._data.pop(tagname)
+        self._datatype.pop(tagname, None)
+        self._gfa._register_line(self)
+        return value
       if tagname in self._datatype:
         self._datatype.pop(tagname)
       return self._data.pop(tagname)
